@@ -46,7 +46,7 @@ def c01(tier, seed, wd, replay):
     if tier == "quick":
         configs.append(ST.cfg("links-2x1-e3-N", NL=1, UseN=True, MaxEnds=3, MaxArg=3, Kinds={"D", "T"}))
     else:
-        configs.append(ST.cfg("links-2x2-e3-N", UseN=True, MaxEnds=3))
+        configs.append(ST.cfg("links-2x2-e3-N", UseN=True, MaxEnds=3, Kinds={"D", "U"}))
         configs.append(ST.cfg("links-3x2-e2", NV=3, InitBV=3, MaxEnds=2, Kinds={"D", "U"}))
         configs.append(ST.cfg("links-2x3-e2", NL=3, MaxEnds=2, Kinds={"D", "T"}))
     nontrivial = set()
